@@ -146,7 +146,7 @@ func runC18(c *Ctx) {
 	}
 	for rep := 0; rep < reps && rep < 2; rep++ {
 		// long cells first so that they overlap with everything else
-		cells = append([]cell{{"tcp+pipeline", "eol-inflight", rep}, {"tls+pipeline", "eol-inflight", rep}}, cells...)
+		cells = append([]cell{{"tcp+pipeline", "eol-inflight", rep}, {"tls+pipeline", "eol-inflight", rep}, {"tcp", "idle-timer-race", rep}, {"tls", "idle-timer-race", rep}, {"udp", "idle-timer-race", rep}}, cells...)
 	}
 	parallelFor(len(cells), 12, nil, func(i int) {
 		cl := cells[i]
@@ -348,6 +348,67 @@ func c18UpstreamChild(args []string) int {
 			}(i)
 		}
 		time.Sleep(300 * time.Millisecond)
+	case "idle-timer-race":
+		// Close while the idle timers of many pooled connections are firing: both sides walk the same
+		// connections and the same pool; Close has to return, later exchanges have to fail promptly.
+		u.Close()
+		for round := 0; round < 6; round++ {
+			opt2 := opt
+			opt2.IdleTimeout = 150 * time.Millisecond
+			u2, err := upstream.NewUpstream(addr, opt2)
+			if err != nil {
+				fmt.Println("INCONCLUSIVE NewUpstream:", err)
+				return 0
+			}
+			var wg sync.WaitGroup
+			var done atomic.Int64
+			for i := 0; i < 60; i++ {
+				wg.Add(1)
+				go func(i int) {
+					defer wg.Done()
+					ctx, cancel := context.WithTimeout(context.Background(), 5*time.Second)
+					defer cancel()
+					m, err := u2.ExchangeContext(ctx, mkQuery(uint16(i), fmt.Sprintf("ok-d60-t%dr%d.c18.test.", i, round), dns.TypeA, dns.ClassINET, true))
+					if err == nil {
+						dnsmsg.ReleaseMsg(m)
+						done.Add(1)
+					}
+				}(i)
+			}
+			wg.Wait()
+			// the connections went idle within a few milliseconds of each other; their timers fire 150 ms later
+			time.Sleep(time.Duration(140+round*4) * time.Millisecond)
+			ret := make(chan struct{})
+			go func() { u2.Close(); close(ret) }()
+			select {
+			case <-ret:
+			case <-time.After(5 * time.Second):
+				fmt.Printf("VIOL close-hangs:%s Close() of a %s upstream whose %d pooled connections were reaching their idle time-out has not returned after 5 s (round %d)\n", kind, kind, done.Load(), round)
+				return 0
+			}
+			d, err := func() (time.Duration, error) {
+				ctx, cancel := context.WithTimeout(context.Background(), 4*time.Second)
+				defer cancel()
+				t0 := time.Now()
+				m, err := u2.ExchangeContext(ctx, mkQuery(9, "ok-after.c18.test.", dns.TypeA, dns.ClassINET, true))
+				if err == nil {
+					dnsmsg.ReleaseMsg(m)
+				}
+				return time.Since(t0), err
+			}()
+			if err == nil {
+				fmt.Printf("VIOL exchange-after-close-succeeded:%s an exchange started after Close() succeeded\n", kind)
+			} else if d > 3*time.Second {
+				fmt.Printf("VIOL exchange-after-close-hangs:%s an exchange started after Close() returned only after %v (%v)\n", kind, d, err)
+			}
+			okN += int(done.Load())
+		}
+		if n := waitSockets(base, 4*time.Second); n > base {
+			fmt.Printf("VIOL socket-left-open:%s:%s %d socket(s) more than before are still open 4 s after the last Close()\n", kind, point, n-base)
+		}
+		fmt.Printf("COUNT cells_done 1\nCOUNT exchanges_ok_before_close %d\n", okN)
+		s.Close()
+		return 0
 	case "eol-inflight":
 		// a pipelined connection that has used up its 65536 wire ids while its last queries are still
 		// outstanding, and a transport that has moved on to a second connection: Close must still
